@@ -1162,6 +1162,14 @@ where
          what="the inherited global plugins are no longer part of a pool's identity (D66 again)",
          old="""                config.plugins.hash(&mut hasher);
 """, new=""),
+    dict(id="c18-drop-leaves-the-entry", prop="C18", file="src/client.rs", expect="C18-R1",
+         what="Drop for Client no longer removes the client's statistics entry (D67 again)",
+         old="""        if !self.cancel_mode {
+            self.stats.disconnect();
+        }
+    }
+}""", new="""    }
+}"""),
     # ------------------------------------------------------------------ C17
     dict(id="c17-shutdown-checked-in-transaction", prop="C17", file="src/client.rs", expect="C17-R1",
          what="the transaction loop also reacts to the shutdown broadcast",
